@@ -476,6 +476,71 @@ func stringsIntrinsic(name string, fn *ssa.Function) intrinsicFn {
 			return inf
 		}
 	// ---- net/http.Header as a plain map with canonical concrete keys
+	// ---- sync.Map as an association list per map object; reflect.TypeOf as an opaque, comparable type name
+	case "(*sync.Map).Load", "(*sync.Map).Store", "(*sync.Map).LoadOrStore", "(*sync.Map).Delete", "(*sync.Map).LoadAndDelete":
+		op := name[strings.LastIndex(name, ".")+1:]
+		return func(x *Exec, _ *ssa.Function, a []Value) Value {
+			p, _ := a[0].(*Pointer)
+			if p == nil {
+				x.abort("PANIC", "nil *sync.Map")
+			}
+			if x.syncMaps == nil {
+				x.syncMaps = map[string]*MapV{}
+			}
+			k := ptrKey(p)
+			m := x.syncMaps[k]
+			if m == nil {
+				x.nobj++
+				m = &MapV{ID: x.nobj}
+				x.syncMaps[k] = m
+			}
+			e := x.mapFind(m, a[1])
+			switch op {
+			case "Load":
+				if e == nil {
+					return tup((*IfaceV)(nil), tFalse)
+				}
+				return tup(e.V, tTrue)
+			case "Store":
+				if e != nil {
+					e.V = a[2]
+				} else {
+					m.Entries = append(m.Entries, &MapEntry{K: a[1], V: a[2]})
+				}
+				return nil
+			case "LoadOrStore":
+				if e != nil {
+					return tup(e.V, tTrue)
+				}
+				m.Entries = append(m.Entries, &MapEntry{K: a[1], V: a[2]})
+				return tup(a[2], tFalse)
+			default: // Delete, LoadAndDelete
+				var old Value = (*IfaceV)(nil)
+				found := tFalse
+				if e != nil {
+					old, found = e.V, tTrue
+					for i, f := range m.Entries {
+						if f == e {
+							m.Entries = append(append([]*MapEntry{}, m.Entries[:i]...), m.Entries[i+1:]...)
+							break
+						}
+					}
+				}
+				if op == "LoadAndDelete" {
+					return tup(old, found)
+				}
+				return nil
+			}
+		}
+	case "reflect.TypeOf":
+		return func(x *Exec, _ *ssa.Function, a []Value) Value {
+			iv, _ := a[0].(*IfaceV)
+			if iv == nil || iv.T == nil {
+				return (*IfaceV)(nil)
+			}
+			// only identity of the dynamic type is observable through this value (map key, ==)
+			return &IfaceV{T: types.Typ[types.String], V: mkStr("reflect.Type:" + iv.T.String())}
+		}
 	case "net/http.CanonicalHeaderKey", "net/textproto.CanonicalMIMEHeaderKey":
 		return func(x *Exec, _ *ssa.Function, a []Value) Value { return canonHeader(x, a[0]) }
 	case "(net/http.Header).Get":
